@@ -247,13 +247,13 @@ def C10.Reachable (st : St) : Prop :=
   ∃ (cfg : Cfg) (progs : List Node), st = progs.foldl (fun s p => (runInput s p).1) (initState cfg)
 
 /-- `st'` extends the heap of `st` by frames only: every frame of `st` is still there with the same
-bindings, parent and function (miss counters, the can't-cache flag and the set counter may differ) -/
+bindings, parent, function and local-function flag (miss counters, the can't-cache flag and the set counter may differ) -/
 def C10.HeapExtends (st st' : St) : Prop :=
   st.frames.size ≤ st'.frames.size ∧
   ∀ i (h : i < st.frames.size) (h' : i < st'.frames.size),
     (st'.frames[i]).store = (st.frames[i]).store ∧ (st'.frames[i]).outer = (st.frames[i]).outer ∧
     (st'.frames[i]).depth = (st.frames[i]).depth ∧ (st'.frames[i]).cacheKey = (st.frames[i]).cacheKey ∧
-    (st'.frames[i]).function = (st.frames[i]).function
+    (st'.frames[i]).function = (st.frames[i]).function ∧ (st'.frames[i]).localFunc = (st.frames[i]).localFunc
 
 /-- what the user sees of an input: output, value, error flag, panic kind -/
 def C10.visible (r : Except String InputObs) : Except String (Grol.Wire.Bytes × String × Bool × String) :=
